@@ -217,13 +217,16 @@ func (ex *Exec) recordFailure(id, detail string, m *sym.Model) {
 // checkAssert decides PC ⇒ c. A violation is recorded with its model; the
 // path continues under the assumption c.
 func (ex *Exec) checkAssert(id string, c *sym.Term) {
+	if ex.AssertFilter != nil && !ex.AssertFilter(id) {
+		return
+	}
 	ex.res.AssertsSeen++
 	if c.IsTrue() {
 		return
 	}
 	if c.IsFalse() {
 		ex.recordFailure(id, "assertion is false on this path", nil)
-		panic(pathEnd{endStop, "assertion failed (constant)"})
+		return // independent assertions that follow are still evaluated
 	}
 	neg := ex.c.Not(c)
 	// On replay the verdict was already computed on the first visit of this
